@@ -24,6 +24,10 @@ for d in sorted(os.listdir(SEEDED)):
         needs = needs[:147] + "..."
     caught = ", ".join("%s%s" % (r["check"], "" if r["detected"] else " (missed, exit %s)" % r["exit"]) for r in (res or {}).get("runs", [])) or "not run"
     rows.append("| %s | %s | %s |" % (d, needs, caught))
-print("| seed (`/verif/seeded/…`) | needs | quick check that reports it |")
-print("|---|---|---|")
-print("\n".join(rows))
+table = "| seed (`/verif/seeded/…`) | needs | quick check that reports it |\n|---|---|---|\n" + "\n".join(rows) + "\n"
+print(table)
+if "--update-design" in sys.argv:
+    dp = os.path.join(os.path.dirname(SEEDED), "DESIGN.md")
+    ds = open(dp).read()
+    a, b = ds.index("<!-- SEED-TABLE-BEGIN -->"), ds.index("<!-- SEED-TABLE-END -->")
+    open(dp, "w").write(ds[:a] + "<!-- SEED-TABLE-BEGIN -->\n" + table + ds[b:])
